@@ -55,7 +55,7 @@ TtlCase(k) ==
                                    OptArea(StdOpts))]
 
 \* ---- opt
-Pool == <<[k |-> "nop"], [k |-> "mss", v |-> 1460], [k |-> "mss", v |-> 0], [k |-> "ws", v |-> 7], [k |-> "ws", v |-> 15], [k |-> "sok"],
+Pool == <<[k |-> "nop"], [k |-> "mss", v |-> 1460], [k |-> "mss", v |-> 0], [k |-> "ws", v |-> 7], [k |-> "ws", v |-> 14], [k |-> "ws", v |-> 15], [k |-> "sok"],
           [k |-> "sack", n |-> 1], [k |-> "ts", val |-> NZ4, ecr |-> Zero4], [k |-> "ts", val |-> Zero4, ecr |-> Zero4],
           [k |-> "ts", val |-> NZ4, ecr |-> NZ4], [k |-> "unk", kind |-> 9, data |-> <<5, 6>>]>>
 NP == Len(Pool)
